@@ -59,3 +59,30 @@ U('pop_internal', r'value_type pop_internal\(\)', 'int MinHeap_pop_internal(stru
 U('top', r'const_reference top\(\) const \{ return container\.front\(\); \}', 'int MinHeap_top(struct MinHeapS* self)',
   '__CPROVER_requires(__CPROVER_is_fresh(self, sizeof(*self)) && MH_OK(self) && self->size >= 1)\n__CPROVER_ensures(g_top_is_min)\n__CPROVER_assigns(g_top_is_min)',
   'top(): the front of a revCmp heap = the minimum')
+
+U('remove', r'bool remove\(const value_type& x\)', 'bool MinHeap_remove(struct MinHeapS* self, bool x_is_top, size_t nfound)',
+  '__CPROVER_requires(__CPROVER_is_fresh(self, sizeof(*self)) && MH_OK(self) && self->size >= 1 && nfound <= self->size)\n__CPROVER_ensures(MH_OK(self) && (x_is_top ? (self->size == __CPROVER_old(self->size) - 1 && __CPROVER_return_value) : (self->size == __CPROVER_old(self->size) - nfound && __CPROVER_return_value == (nfound > 0))))\n__CPROVER_assigns(__CPROVER_object_whole(self), g_top_is_min)',
+  'remove(x) on a NON-EMPTY heap: the top is popped, or every occurrence is erased and the heap re-established with revCmp; the result says whether something was removed.  (On an empty heap remove() evaluates top() = front() of an empty vector: outside this contract.)',
+  extra=[rx(r'x == top\(\)', '(cont_front(self), x_is_top)', 1, 1), rx(r'(?<![\w.>])pop\(\);', 'MinHeap_pop_inl(self);', 1, 1),
+         rx(r'typename container_type::iterator nend =\s*std::remove\(container\.begin\(\), container\.end\(\), x\);', 'size_t nend = self->size - nfound;   /* std::remove: the kept elements come first */', 1, 1),
+         rx(r'ret = \(nend != container\.end\(\)\);', 'ret = (nend != self->size);', 1, 1), rx(r'container\.erase\(nend, container\.end\(\)\);', '{ self->size = nend; self->tail = 0; self->heap_for = 0; }   /* erase(nend, end()): order of the rest is arbitrary */', 1, 1)],
+  post_pre='static inline int MinHeap_pop_inl(struct MinHeapS* self) { __CPROVER_assert(!cont_empty(self), "code-assert: !container.empty()"); std_pop_heap(self, revCmp); int x = cont_back(self); cont_pop_back(self); return x; }   /* = the lowered body of pop(), proved as MinHeap_pop */\n')
+
+# ---- thread-safe wrappers: every operation takes the lock once, delegates under it, and releases it on every path --------------------------
+TP = ["""
+bool g_held; unsigned g_acquires, g_releases, g_inner;      /* ghost: lock state and counters */
+static inline void lk_lock(void) { __CPROVER_assert(!g_held, "lock(): not already held by this thread (SimpleLock is not recursive)"); g_held = 1; g_acquires++; }
+static inline void lk_unlock(void) { __CPROVER_assert(g_held, "unlock(): held"); g_held = 0; g_releases++; }
+static inline unsigned long inner(void) { __CPROVER_assert(g_held, "the wrapped container is only touched under the lock"); g_inner++; return 0; }
+#define TS_PRE (!g_held && g_acquires == 0 && g_releases == 0 && g_inner == 0)
+#define TS_POST (!g_held && g_acquires == 1 && g_releases == 1 && g_inner >= 1)
+"""]
+TS_LOWER = [rx(r'mutex\.lock\(\)', 'lk_lock()', 1, 1), rx(r'mutex\.unlock\(\)', 'lk_unlock()', 1), rx(r'\*orderedSet\.begin\(\)', 'inner()', 0), rx(r'(heap|orderedSet)\.\w+\((?:[^()]|\([^()]*\))*\)', 'inner()', 0),
+            rx(r'(size_type|value_type|auto|bool) (\w+)\s*=', r'unsigned long \2 =', 0), rx(r'return p\.second;', 'return p != 0;', 0), rx(r'x == inner\(\)', '(inner() == 0)', 0)]
+for cls, ops in (('ThreadSafeMinHeap', ['empty', 'size', 'top', 'push', 'pop', 'remove', 'find', 'clear']), ('ThreadSafeOrderedSet', ['empty', 'size', 'top', 'find', 'push', 'pop', 'remove', 'clear'])):
+    for op in ops:
+        anchor = {'empty': r'bool empty\(\) const', 'size': r'size_type size\(\) const', 'top': r'value_type top\(\) const', 'push': r'(void|bool) push\(const value_type& x\)', 'pop': r'value_type pop\(\)',
+                  'remove': r'bool remove\(const value_type& x\)', 'find': r'bool find\(const value_type& x\) const', 'clear': r'void clear\(\)'}[op]
+        UNITS.append(Unit(name='%s_%s' % (cls, op), src=PQ, within=r'class %s\b' % cls, anchor=anchor, proto='unsigned long %s_%s(unsigned long x)' % (cls, op),
+                          contract='__CPROVER_requires(TS_PRE)\n__CPROVER_ensures(TS_POST)\n__CPROVER_assigns(g_held, g_acquires, g_releases, g_inner)', prelude=TP, lower=TS_LOWER,
+                          no_flags=['--conversion-check'], says='%s::%s: takes the lock exactly once, touches the wrapped container only while holding it, and has released it on return (every path)' % (cls, op)))
